@@ -604,6 +604,11 @@ func runEqualEscapes(ctx *core.Ctx, id string) {
 		{"\"\U0010FFFF\"", `"\udbff\udfff"`},
 		{"\"\u2028\"", `"\u2028"`},
 		{"\"\u2068\"", `"\u2068"`},
+		// lone surrogate escapes read as U+FFFD, one per escape
+		{`"\udc00"`, `"\ufffd"`, `"\ud800"`, "\"\ufffd\""},
+		{`"\udc00\udc00"`, `"\ufffd\ufffd"`, `"\ud800\ud800"`, `"\udc00\ud800"`, "\"\ufffd\ufffd\""},
+		{`"\ud800\udc00\udc00"`, "\"\U00010000\ufffd\""},
+		{`"\udc00\ud800\udc00"`, "\"\ufffd\U00010000\""},
 	}
 	ctxs := []func(string) string{
 		func(x string) string { return x },
